@@ -6,6 +6,7 @@ Not a part itself (file name does not start with cXX_); the part files are thin 
     from props.parts import smb_lib
     PART, correspondence, oracle, replay = smb_lib.part('c03', 'solar')
 """
+import copy
 import re
 
 from vlib.core import zlit, zlist
@@ -100,6 +101,7 @@ def corrupt(rng, s):
 
 class Sim:
     """description of one simulator for the harness; subclasses below"""
+    thorough = False
     name = None          # short name used in file names and failure classes
     coq_imports = None
     ctype = None
@@ -142,6 +144,104 @@ class Sim:
             return rand_bytes(rng, rng.randrange(1, 12), self.alphabet)
         return self.valid_line(rng)[:-1] + rng.choice(SEPS) + rand_bytes(rng, rng.randrange(0, 5)) + '\n'
 
+    # -- defaults for '\n'-line simulators driven with str streams --------------
+    noise_outcomes = ('T',)
+    okfun_wf = None
+    registers = ()
+
+    def key(self, st):
+        return st
+
+    def concat(self, parts):
+        return ''.join(parts)
+
+    def resync(self, rng):
+        return '\n'
+
+    def corrupt(self, rng, s):
+        return corrupt(rng, s)
+
+    def probe(self, rng):
+        return rng.choice(self.queries)
+
+    def all_queries(self, rng):
+        qs = list(self.queries)
+        rng.shuffle(qs)
+        return qs
+
+    def write_line(self, rng):
+        reg = rng.choice(self.registers)
+        return self.reg_write(reg, self.reg_token(rng, reg))
+
+    def garbage_line(self, rng):
+        return self.garbage(rng).replace('\n', '') + '\n'
+
+    def buffer_idle(self, s):
+        return s.msg == ''
+
+    def fresh_with_device(self, s):
+        t = self.make()
+        self.set_device(t, copy.deepcopy(self.device(s)))
+        return t
+
+    def readbacks(self, s):
+        c = copy.deepcopy(s)
+        return [self.feed(c, q)[-1] for q in self.queries]
+
+    def reply_ok(self, r):
+        return bool(self.reply_re.match(r))
+
+    def echo_ok(self, stream, i, reply):
+        return None
+
+    def c02_class(self, history, query, outs):
+        return self.name + '_c02_query_not_answered'
+
+    def c04_class(self, kind, stream, reply):
+        return self.name + '_c04_' + kind
+
+    def c05_refused_class(self, line, outs):
+        return self.name + '_c05_refused_write_changed_state'
+
+    def reg_class(self, reg, tok, kind):
+        return '%s_c05_%s_%s' % (self.name, reg, kind)
+
+    def reg_match(self, reg, got, want):
+        return got == want
+
+    def between_ok(self, reg, between, outs):
+        return True
+
+    def non_writing_line(self, rng, reg):
+        return self.probe(rng)
+
+    def corpus(self, prop):
+        return []
+
+    def c02_histories(self):
+        return ['']
+
+    def c04_streams(self):
+        return []
+
+    def c05_seeds(self):
+        return []
+
+    def c05_refused_seeds(self):
+        return []
+
+    def byte_sweep(self):
+        """every byte value between the tokens of a command, in front of it and before its terminator"""
+        out = []
+        for cmd in self.sweep_cmds:
+            a, b = cmd.split(' ', 1)
+            for v in range(256):
+                c = chr(v)
+                out.append(a + c + b + '\n' + cmd + '\n')
+                out.append(c + cmd + '\n')
+                out.append(cmd[:-1] + c + '\n' if cmd.endswith('\r') else cmd + c + '\n')
+        return out
+
     def history(self, rng, n=None):
         """a mixed history: accepted commands, refused commands, garbage"""
         n = rng.randrange(0, 7) if n is None else n
@@ -173,9 +273,71 @@ class Solar(Sim):
     modes = ['', 'Attenuator', 'Calibrator', 'Pass-through']
     reply_re = re.compile(r'\A(?:(?:ACK|Attenuator|Calibrator|Pass-through|)\r\n)(?:;(?:ACK|Attenuator|Calibrator|Pass-through|)\r\n)*\Z')
 
+    repo_name = 'solar_attenuator'
+    coq_name = 'Solar'
+    okfun_wf = 'solar_ok_wf'
+    registers = ['mode']
+    sweep_cmds = ['get W_mode\r', 'set W_cal\r']
+    noise_lines = ['\n', '\r\n', 'dummy;;\r\n', ' ;\t;\r\n', 'get\r\n']
+
     def make(self):
         from simulators.solar_attenuator import System
         return System()
+
+    def device(self, s):
+        return dict(mode=s.mode, home=s.home, cal_temp=s.cal_temp)
+
+    def set_device(self, t, dev):
+        t.mode, t.home, t.cal_temp = dev['mode'], dev['home'], dev['cal_temp']
+
+    def reg_token(self, rng, reg):
+        if rng.random() < 0.7:
+            return rng.choice(list(self.sets))
+        return rng.choice(['set W_foo', 'set W_cal1', 'set w_cal', 'put W_cal', 'set W_solar'])
+
+    def reg_write(self, reg, tok):
+        return tok + '\r\n'
+
+    def reg_read(self, reg):
+        return 'get W_mode\r\n'
+
+    def reg_acked(self, reg, tok, outs):
+        return outs[-1] == ('R', 'ACK\r\n')
+
+    def reg_enc(self, reg, tok):
+        return self.sets[tok] + '\r\n' if tok in self.sets else None
+
+    def line_acked(self, line, outs):
+        return any(o[0] == 'R' and 'ACK' in o[1] for o in outs)
+
+    def writes_mode(self, line):
+        return any(k in line for k in ('W_solar_attn', 'W_cal', 'W_passthrough'))
+
+    def non_writing_line(self, rng, reg):
+        for _ in range(20):
+            r = rng.random()
+            c = (rng.choice(['get W_mode\r\n', 'set W_home\r\n', 'get W_mode;set W_home\r\n']) if r < 0.5
+                 else self.refused_line(rng) if r < 0.8 else self.garbage_line(rng))
+            if not self.writes_mode(c):
+                return c
+        return 'get W_mode\r\n'
+
+    def between_ok(self, reg, between, outs):
+        return not self.writes_mode(between)
+
+    def c05_refused_class(self, line, outs):
+        if ';' in line and any(o[0] == 'EX' for o in outs):
+            return 'solar_partial_line_exception'
+        return 'solar_c05_refused_write_changed_state'
+
+    def c05_refused_seeds(self):
+        return [('', 'set W_cal;foo bar\r\n'), ('set W_cal\r\n', 'set W_foo\r\n'), ('', 'dummy cmd\r\n')]
+
+    def c05_seeds(self):
+        return [('', k, k, 'set W_home\r\nget W_mode\r\nfoo bar\r\n') for k in self.sets]
+
+    def c02_histories(self):
+        return ['', 'set W_cal\r\n', 'foo bar\r\n', 'set W_cal;foo bar\r\n', 'get W_mo']
 
     def snapshot(self, s):
         return (s.msg, s.mode, s.home)
@@ -229,9 +391,77 @@ class SwMatrix(Sim):
     queries = ['get IF_switch_config\r\n', 'get IF_switch_config\n', ' get  IF_switch_config\r\n'][:2]
     reply_re = re.compile(r'\A(?:ACK\r\n|NACK\r\n|[1-4]:(?:HBS|VBS|LBP|UBP)\r\n(?:;[1-4]:(?:HBS|VBS|LBP|UBP)\r\n)*)\Z')
 
+    repo_name = 'switch_matrix'
+    coq_name = 'SwMatrix'
+    okfun_wf = 'sw_ok_wf'
+    registers = ['config']
+    sweep_cmds = ['get IF_switch_config\r', 'set IF_switch_config=3\r']
+    noise_lines = ['\n', '\r\n', 'dummy;;\r\n', 'set;;get\r\n', '\r\r\n']
+
     def make(self):
         from simulators.switch_matrix import System
         return System()
+
+    def device(self, s):
+        return dict(idx=s.sw_matrix._switch_matrix)
+
+    def set_device(self, t, dev):
+        t.sw_matrix._switch_matrix = dev['idx']
+
+    def reg_token(self, rng, reg):
+        return self.int_token(rng)
+
+    def reg_write(self, reg, tok):
+        return 'set IF_switch_config=' + tok + '\r\n'
+
+    def reg_read(self, reg):
+        return 'get IF_switch_config\r\n'
+
+    def reg_acked(self, reg, tok, outs):
+        return outs[-1] == ('R', 'ACK\r\n')
+
+    def reg_enc(self, reg, tok):
+        # documented domain: a decimal integer literal naming one of the four configurations
+        t = tok.strip(' ')
+        if re.fullmatch(r'[0-9]+(_[0-9]+)*', t) and int(t) in self.table:
+            return '%d:%s\r\n' % (int(t), self.table[int(t)])
+        return None
+
+    def reg_class(self, reg, tok, kind):
+        if kind == 'ack' and re.search(r'\W', tok.strip(' ')):
+            return 'swmatrix_value_split_by_tokenizer'
+        return 'swmatrix_c05_config_' + kind
+
+    def line_acked(self, line, outs):
+        return any(o == ('R', 'ACK\r\n') for o in outs)
+
+    def non_writing_line(self, rng, reg):
+        r = rng.random()
+        return (self.reg_read(reg) if r < 0.4 else self.reg_write(reg, self.int_token(rng, False)) if r < 0.7
+                else self.refused_line(rng) if r < 0.85 else self.garbage_line(rng))
+
+    def between_ok(self, reg, between, outs):
+        return not self.line_acked(between, outs)
+
+    def c05_seeds(self):
+        return [('', 'config', t, 'set IF_switch_config=9\r\nget IF_switch_config\r\nfoo\r\n')
+                for t in ('1', '2', '3', '4', '04', '-3', '2.9', '9', '0', 'x')]
+
+    def c05_refused_seeds(self):
+        return [('set IF_switch_config=2\r\n', 'set IF_switch_config=%s\r\n' % t) for t in ('9', '0', 'abc', '', '5', '\xb2')]
+
+    def corpus(self, prop):
+        if prop == 'c05' and self.thorough:      # int() refuses more than 4300 digits (sys.int_info.default_max_str_digits)
+            return ['set IF_switch_config=%s\r\nget IF_switch_config\r\n' % t
+                    for t in ('0' * 4299 + '3', '0' * 4300 + '3', '1_' * 3 + '0' * 4290 + '2')]
+        return []
+
+    def c02_histories(self):
+        return ['', 'set IF_switch_config=9\r\n', 'set IF_switch_config=0\r\n', 'set IF_switch_config=4\r\n',
+                'set IF_switch_config=99999999999999999999\r\n', 'foo bar\r\n', 'set IF_sw']
+
+    def echo_ok(self, stream, i, reply):
+        return None
 
     def snapshot(self, s):
         return (s.msg, s.sw_matrix._switch_matrix)
@@ -250,7 +480,7 @@ class SwMatrix(Sim):
             v = rng.randrange(1, 5)
             return rng.choice(['%d', '%d', '%d', '0%d', '00_%d', '%d ', ' %d', '+%d']) % v
         return rng.choice(['0', '5', '9', '10', '44', '-1', '1_', '_1', '1__2', 'abc', '', '\xb2', '2x', 'x2',
-                           '1_000', '99999999999999999999', '1' * 40, '4' + '0' * 4400, '\xb9', 'IF', '2_3'])
+                           '1_000', '99999999999999999999', '1' * 40, '\xb9', 'IF', '2_3'])
 
     def valid_line(self, rng):
         k = rng.randrange(10)
@@ -290,3 +520,506 @@ def register(sim):
 
 register(Solar())
 register(SwMatrix())
+
+
+# ===========================================================================
+# correspondence suites (one generator family per property; all run the same Coq model)
+
+def _run(ctx, sim, suite, streams, okfun=None):
+    cases = []
+    sim.thorough = not ctx.quick()
+    for st in streams:
+        t, outs, snap = sim.case(st)
+        cases.append(t)
+        kinds = sorted(set(o[0] if o[0] != 'EX' else o[1] for o in outs if o[0] != 'T'))
+        ctx.count('%s:%s' % (sim.name, '+'.join(kinds) or 'silent'))
+        if kinds:
+            ctx.nontriv((sim.name, suite, sim.key(st)))
+    if cases:
+        ctx.sample('%s: %s' % (suite, cases[len(cases) // 2][:300]))
+    ctx.run_cases('%s_%s' % (suite, sim.name), sim.coq_imports, sim.ctype, okfun or sim.okfun, cases,
+                  show=sim.showfun, shard=ctx.n(120, 400))
+
+
+def corr_c03(ctx, sim):
+    """random / truncated / corrupted byte streams, then the terminator and a probe query"""
+    rng = ctx.rng
+    streams = list(sim.corpus('c03'))
+    streams += sim.byte_sweep()
+    for _ in range(ctx.n(250, 2500)):
+        parts = []
+        for _ in range(rng.randrange(1, 6)):
+            r = rng.random()
+            if r < 0.3:
+                parts.append(sim.valid_line(rng))
+            elif r < 0.45:
+                parts.append(sim.refused_line(rng))
+            elif r < 0.6:
+                line = sim.valid_line(rng)
+                parts.append(line[:rng.randrange(len(line))])          # truncated
+            elif r < 0.75:
+                parts.append(sim.corrupt(rng, sim.valid_line(rng)))
+            else:
+                parts.append(sim.garbage(rng))
+        st = sim.concat(parts)
+        if rng.random() < 0.8:
+            st = sim.concat([st, sim.resync(rng), sim.probe(rng)])
+        streams.append(st)
+    _run(ctx, sim, 'c03', streams)
+
+
+def corr_c05(ctx, sim):
+    """register write / read-back sequences with in-domain, boundary and out-of-domain values"""
+    rng = ctx.rng
+    sim.thorough = not ctx.quick()
+    streams = list(sim.corpus('c05'))
+    for _ in range(ctx.n(250, 2500)):
+        parts = []
+        for _ in range(rng.randrange(2, 9)):
+            r = rng.random()
+            if r < 0.4:
+                parts.append(sim.write_line(rng))
+            elif r < 0.75:
+                parts.append(sim.probe(rng))
+            elif r < 0.9:
+                parts.append(sim.refused_line(rng))
+            else:
+                parts.append(sim.garbage(rng))
+        streams.append(sim.concat(parts))
+    _run(ctx, sim, 'c05', streams)
+
+
+def corr_c02(ctx, sim):
+    """mixed history, resynchronisation, then every query of the catalogue"""
+    rng = ctx.rng
+    streams = list(sim.corpus('c02'))
+    for _ in range(ctx.n(200, 2000)):
+        h = sim.history(rng)
+        if rng.random() < 0.3:
+            line = sim.valid_line(rng)
+            h = sim.concat([h, line[:rng.randrange(len(line))]])
+        streams.append(sim.concat([h, sim.resync(rng)] + sim.all_queries(rng)))
+    _run(ctx, sim, 'c02', streams)
+
+
+def corr_c04(ctx, sim):
+    """accepted, refused and erroneous requests; every implementation reply also goes through the
+    Coq decoder of the protocol"""
+    rng = ctx.rng
+    streams = list(sim.corpus('c04'))
+    for _ in range(ctx.n(200, 2000)):
+        parts = []
+        for _ in range(rng.randrange(1, 7)):
+            r = rng.random()
+            parts.append(sim.valid_line(rng) if r < 0.4 else sim.write_line(rng) if r < 0.6
+                         else sim.refused_line(rng) if r < 0.85 else sim.garbage(rng))
+        streams.append(sim.concat(parts))
+    _run(ctx, sim, 'c04', streams, okfun=sim.okfun_wf)
+
+
+CORR = dict(c03=corr_c03, c05=corr_c05, c02=corr_c02, c04=corr_c04)
+
+
+# ===========================================================================
+# property-level oracles on the implementation (no model involved)
+
+def _outs_repr(outs):
+    return [o if o[0] != 'R' else ('R', o[1]) for o in outs if o[0] != 'T']
+
+
+def check_c03(sim, history, probe, noise):
+    """after `history` + terminator: buffer idle; a noise line is discarded without effect; the
+    probe line is answered exactly as by a fresh parser holding the same device state"""
+    s = sim.make()
+    sim.feed(s, history)
+    sim.feed(s, sim.resync(None))
+    if not sim.buffer_idle(s):
+        return (sim.name + '_c03_not_idle_after_terminator', 'receive buffer not empty after the terminator')
+    dev0 = sim.device(s)
+    outs = sim.feed(s, noise)
+    if any(o[0] not in sim.noise_outcomes for o in outs) or sim.device(s) != dev0 or not sim.buffer_idle(s):
+        return (sim.name + '_c03_noise_not_discarded', 'a line that cannot be a command had an effect: %r' % (_outs_repr(outs),))
+    twin = sim.fresh_with_device(s)
+    o1 = sim.feed(s, probe)
+    o2 = sim.feed(twin, probe)
+    if o1 != o2 or sim.device(s) != sim.device(twin):
+        return (sim.name + '_c03_residue', 'command after resynchronisation answered differently from a fresh parser: %r vs %r'
+                % (_outs_repr(o1), _outs_repr(o2)))
+    return None
+
+
+def check_c02(sim, history, query):
+    """after history + terminator, the query gets exactly one, well-formed reply"""
+    s = sim.make()
+    sim.feed(s, history)
+    sim.feed(s, sim.resync(None))
+    outs = sim.feed(s, query)
+    body, last = outs[:-1], outs[-1]
+    if any(o[0] != 'T' for o in body) or last[0] != 'R':
+        return (sim.c02_class(history, query, outs), 'query %r not answered with exactly one reply: %r' % (query, _outs_repr(outs)))
+    if not sim.reply_ok(last[1]):
+        return (sim.name + '_c02_malformed_answer', 'query %r answered with malformed reply %r' % (query, last[1]))
+    return None
+
+
+def check_c04(sim, stream):
+    """every reply in the run decodes under the protocol's reply grammar and is single-byte text"""
+    s = sim.make()
+    outs = sim.feed(s, stream)
+    for i, o in enumerate(outs):
+        if o[0] == 'BAD':
+            return (sim.name + '_c04_bad_return', 'parse returned an empty / non-str value at byte %d' % i)
+        if o[0] == 'R':
+            try:
+                o[1].encode('latin-1')
+            except UnicodeEncodeError:
+                return (sim.c04_class('charset', stream, o[1]), 'reply %r is not transmittable as single bytes' % o[1])
+            if not sim.reply_ok(o[1]):
+                return (sim.c04_class('shape', stream, o[1]), 'reply %r does not decode under the protocol' % o[1])
+            err = sim.echo_ok(stream, i, o[1])
+            if err:
+                return (sim.name + '_c04_echo', err)
+    return None
+
+
+def check_c05_readback(sim, history, reg, tok, between):
+    """write `tok` to register `reg`; if acknowledged, after `between` (no acknowledged write of reg)
+    the read-back is the protocol encoding of the written value"""
+    s = sim.make()
+    sim.feed(s, history)
+    sim.feed(s, sim.resync(None))
+    w = sim.reg_write(reg, tok)
+    outs = sim.feed(s, w)
+    if not sim.reg_acked(reg, tok, outs):
+        return None
+    want = sim.reg_enc(reg, tok)
+    if want is None:
+        return (sim.reg_class(reg, tok, 'ack'), 'write %r acknowledged although the value is outside the documented domain' % w)
+    bo = sim.feed(s, between)
+    if not sim.between_ok(reg, between, bo):
+        return None                      # the history contains an acknowledged write of reg: hypothesis not met
+    sim.feed(s, sim.resync(None))
+    q = sim.reg_read(reg)
+    ro = sim.feed(s, q)
+    got = ro[-1]
+    if got[0] != 'R' or not sim.reg_match(reg, got[1], want):
+        return (sim.reg_class(reg, tok, 'readback'), 'after acknowledged %r the read-back %r gives %r, expected %r'
+                % (w, q, got, want))
+    return None
+
+
+def check_c05_refused(sim, history, line):
+    """a line that is not acknowledged leaves every read-back of the catalogue unchanged"""
+    s = sim.make()
+    sim.feed(s, history)
+    sim.feed(s, sim.resync(None))
+    before = sim.readbacks(s)
+    outs = sim.feed(s, line)
+    if sim.line_acked(line, outs):
+        return None
+    after = sim.readbacks(s)
+    if before != after:
+        return (sim.c05_refused_class(line, outs), 'line %r was not acknowledged (%r) but read-backs changed: %r -> %r'
+                % (line, _outs_repr(outs), before, after))
+    return None
+
+
+CHECKS = dict(c03=check_c03, c02=check_c02, c04=check_c04, c05_readback=check_c05_readback,
+              c05_refused=check_c05_refused)
+
+
+def _report(ctx, sim, check, res, **args):
+    ctx.evaluations += 1
+    if res:
+        ctx.fail(res[0], res[1], dict(sim=sim.name, check=check, args=args))
+
+
+def oracle_c03(ctx, sim):
+    rng = ctx.rng
+    for _ in range(ctx.n(300, 4000)):
+        h = sim.history(rng)
+        if rng.random() < 0.6:
+            line = sim.valid_line(rng)
+            h = sim.concat([h, sim.corrupt(rng, line) if rng.random() < 0.5 else line[:rng.randrange(len(line))]])
+        probe = sim.probe(rng) if rng.random() < 0.6 else sim.valid_line(rng)
+        noise = rng.choice(sim.noise_lines)
+        _report(ctx, sim, 'c03', check_c03(sim, h, probe, noise), history=h, probe=probe, noise=noise)
+
+
+def oracle_c02(ctx, sim):
+    rng = ctx.rng
+    for h in sim.c02_histories():
+        for q in sim.queries:
+            _report(ctx, sim, 'c02', check_c02(sim, h, q), history=h, query=q)
+    for _ in range(ctx.n(200, 3000)):
+        h = sim.history(rng)
+        if rng.random() < 0.3:
+            h = sim.concat([h, sim.garbage(rng)])
+        for q in sim.queries:
+            _report(ctx, sim, 'c02', check_c02(sim, h, q), history=h, query=q)
+
+
+def oracle_c04(ctx, sim):
+    rng = ctx.rng
+    for st in sim.c04_streams():
+        _report(ctx, sim, 'c04', check_c04(sim, st), stream=st)
+    for _ in range(ctx.n(300, 4000)):
+        parts = []
+        for _ in range(rng.randrange(1, 7)):
+            r = rng.random()
+            parts.append(sim.valid_line(rng) if r < 0.35 else sim.write_line(rng) if r < 0.6
+                         else sim.refused_line(rng) if r < 0.85 else sim.garbage(rng))
+        st = sim.concat(parts)
+        _report(ctx, sim, 'c04', check_c04(sim, st), stream=st)
+
+
+def oracle_c05(ctx, sim):
+    rng = ctx.rng
+    for (h, reg, tok, between) in sim.c05_seeds():
+        _report(ctx, sim, 'c05_readback', check_c05_readback(sim, h, reg, tok, between),
+                history=h, reg=reg, tok=tok, between=between)
+    for (h, line) in sim.c05_refused_seeds():
+        _report(ctx, sim, 'c05_refused', check_c05_refused(sim, h, line), history=h, line=line)
+    for _ in range(ctx.n(300, 4000)):
+        h = sim.history(rng, rng.randrange(0, 4))
+        reg = rng.choice(sim.registers)
+        tok = sim.reg_token(rng, reg)
+        between = sim.concat([sim.non_writing_line(rng, reg) for _ in range(rng.randrange(0, 5))])
+        _report(ctx, sim, 'c05_readback', check_c05_readback(sim, h, reg, tok, between),
+                history=h, reg=reg, tok=tok, between=between)
+    for _ in range(ctx.n(300, 4000)):
+        h = sim.history(rng, rng.randrange(0, 4))
+        r = rng.random()
+        line = sim.refused_line(rng) if r < 0.5 else sim.garbage_line(rng) if r < 0.75 else sim.write_line(rng)
+        _report(ctx, sim, 'c05_refused', check_c05_refused(sim, h, line), history=h, line=line)
+
+
+ORACLE = dict(c03=oracle_c03, c05=oracle_c05, c02=oracle_c02, c04=oracle_c04)
+
+
+def part(prop, simname):
+    """PART dict and the four hooks of props/parts/<prop>_<sim>.py"""
+    sim = SIMS[simname]
+    PART = dict(name='%s_%s' % (prop, simname), simulator=sim.repo_name, ready=True,
+                coq_targets=['Properties/%s_%s.vo' % (prop.upper(), simname), 'Corr/Smb%sCorr.vo' % sim.coq_name])
+
+    def correspondence(ctx):
+        CORR[prop](ctx, sim)
+
+    def oracle(ctx):
+        ORACLE[prop](ctx, sim)
+
+    def replay(ctx, obj):
+        w = obj.get('witness') or {}
+        if w.get('sim') != simname or not str(w.get('check', '')).startswith(prop):
+            return False
+        args = w['args']
+        if sim.name == 'weather':
+            args = {k: sim.unjson(v) for k, v in args.items()}
+        res = CHECKS[w['check']](sim, **args)
+        return bool(res)
+
+    return PART, correspondence, oracle, replay
+
+
+# ---------------------------------------------------------------------------
+# generic LO
+
+import math
+from fractions import Fraction
+
+
+def _is_int_literal(t):
+    return bool(re.fullmatch(r'[+-]?[0-9]+', t))
+
+
+def _finite_float(t):
+    try:
+        f = float(t)
+    except ValueError:
+        return None
+    return f if math.isfinite(f) and math.isfinite(f * 1e6) else None
+
+
+class GenLO(Sim):
+    name = 'genlo'
+    repo_name = 'lo/generic_LO'
+    coq_name = 'GenLO'
+    coq_imports = 'From DS Require Import Model.SmbCommon Model.SmbGenLO Corr.SmbGenLOCorr.'
+    ctype = 'g_case'
+    okfun = 'g_ok'
+    okfun_wf = 'g_ok_wf'
+    showfun = 'g_show'
+    alphabet = 'POWERFQ?SYT: dBmMHZ0123456789.-+e;\n \t'
+    queries = ['POWER?\n', 'FREQ?\n', 'SYST:ERR?\n']
+    registers = ['power', 'freq']
+    sweep_cmds = ['POWER 7 dBm', 'FREQ 2.5 MHZ']
+    noise_lines = ['\n', 'dummy;;\n', ' ; \t;\n', 'POWER\n', 'FREQ 5\n', 'power?\n']
+    reply_re = re.compile(r'\A(?:-?[0-9]+|0,"No error")(?:;(?:-?[0-9]+|0,"No error"))*\n\Z')
+
+    def make(self):
+        from simulators.lo import System
+        return System(system_type='generic_LO')
+
+    @staticmethod
+    def oracle(tok):
+        try:
+            f = float(tok)
+        except ValueError:
+            return 'FErr'
+        hz = f * 1000000
+        if not math.isfinite(hz):
+            return 'FNonFinite'
+        return '(FFin %s %s)' % (zlit(int(round(hz))), s2z(repr(f)))
+
+    def table(self, stream):
+        toks = []
+        for line in stream.split('\n'):
+            for cmd in line.split(';'):
+                a = cmd.split()
+                if len(a) >= 2 and a[1] not in toks:
+                    toks.append(a[1])
+        return [(t, self.oracle(t)) for t in toks]
+
+    def snapshot(self, s):
+        return (s.msg, s.power, repr(s.frequency))
+
+    def device(self, s):
+        return dict(power=s.power, frequency=repr(s.frequency))
+
+    def set_device(self, t, dev):
+        t.power, t.frequency = dev['power'], float(dev['frequency'])
+
+    def case(self, stream):
+        s = self.make()
+        outs = self.feed(s, stream)
+        msg, power, freq = self.snapshot(s)
+        assert isinstance(power, int) and not isinstance(power, bool) and isinstance(s.frequency, float)
+        t = 'GCase %s %s %s %s %s %s' % (table_term(self.table(stream), str), s2z(stream), obs_term(outs),
+                                          s2z(msg), zlit(power), s2z(freq))
+        return t, outs, (msg, power, freq)
+
+    def int_tok(self, rng, good=None):
+        good = rng.random() < 0.65 if good is None else good
+        if good:
+            return rng.choice(['%d' % rng.randrange(-200, 200), '+%d' % rng.randrange(50), '0', '-0', '007',
+                               '1_0', str(rng.randrange(-10 ** 30, 10 ** 30))])
+        return rng.choice(['dummy', '1.5', '', '1e3', '_1', '1_', '1__0', '+', '-', '0x10', '\xb2', '--1', '1-', 'nan'])
+
+    def float_tok(self, rng, good=None):
+        good = rng.random() < 0.65 if good is None else good
+        if good:
+            return rng.choice(['%d' % rng.randrange(0, 50000), '%.3f' % rng.uniform(0, 50000), '1.5', '0.1', '2.675',
+                               '1e3', '-0.0', '.5', '5.', '1_0.2_5', '1e-7', '4.35', '0.0000005', '123456789.987654321',
+                               '1.0000005', '9007199254.740993', '-3.2', '+7e2', '1e300'])
+        return rng.choice(['nan', 'inf', '-inf', 'infinity', 'NaN', '1e303', '1e308', '1e400', '-1e305', 'dummy',
+                           '', '1,5', '0x1p3', '1e', '--1', '1_', 'e5'])
+
+    def reg_token(self, rng, reg):
+        return self.int_tok(rng) if reg == 'power' else self.float_tok(rng)
+
+    def reg_write(self, reg, tok):
+        return ('POWER %s dBm\n' if reg == 'power' else 'FREQ %s MHZ\n') % tok
+
+    def reg_read(self, reg):
+        return 'POWER?\n' if reg == 'power' else 'FREQ?\n'
+
+    def reg_acked(self, reg, tok, outs):
+        # the protocol never acknowledges a write on the wire: "acknowledged" = the value is in the
+        # documented domain (an integer literal / a finite decimal literal) and the line was accepted
+        if any(o[0] != 'T' for o in outs) or tok.split() != [tok]:
+            return False
+        return _is_int_literal(tok) if reg == 'power' else (_finite_float(tok) is not None and re.fullmatch(r'[-+0-9.eE]+', tok) is not None)
+
+    def reg_enc(self, reg, tok):
+        return str(int(tok)) + '\n' if reg == 'power' else Fraction(float(tok)) * 10 ** 6
+
+    def reg_match(self, reg, got, want):
+        if reg == 'power':
+            return got == want
+        m = re.fullmatch(r'(-?[0-9]+)\n', got)
+        return bool(m) and abs(int(m.group(1)) - want) <= Fraction(1, 2) + abs(want) * Fraction(1, 10 ** 12)
+
+    def reg_class(self, reg, tok, kind):
+        if reg == 'freq' and kind == 'readback':
+            f = _finite_float(tok)
+            if f is not None and f != int(f):
+                return 'genlo_freq_truncated'
+        return 'genlo_c05_%s_%s' % (reg, kind)
+
+    def accepted_writes(self, line):
+        n = 0
+        for cmd in line.replace('\n', ';').split(';'):
+            a = cmd.split()
+            if len(a) == 3 and a[0] == 'POWER' and a[2] == 'dBm':
+                try:
+                    int(a[1]); n += 1
+                except ValueError:
+                    pass
+            if len(a) == 3 and a[0] == 'FREQ' and a[2] == 'MHZ' and _finite_float(a[1]) is not None:
+                n += 1
+        return n
+
+    def line_acked(self, line, outs):
+        return self.accepted_writes(line) > 0
+
+    def between_ok(self, reg, between, outs):
+        return not any((cmd.split() or [''])[0] == ('POWER' if reg == 'power' else 'FREQ')
+                       for cmd in between.replace('\n', ';').split(';'))
+
+    def non_writing_line(self, rng, reg):
+        other = 'freq' if reg == 'power' else 'power'
+        r = rng.random()
+        return (rng.choice(self.queries) if r < 0.4 else self.reg_write(other, self.reg_token(rng, other)) if r < 0.7
+                else self.garbage_line(rng))
+
+    def c05_refused_class(self, line, outs):
+        if re.search(r'FREQ\s+[-+]?(nan|inf)', line, re.I):
+            return 'genlo_freq_nonfinite_stored'
+        return 'genlo_c05_refused_write_changed_state'
+
+    def valid_line(self, rng):
+        k = rng.randrange(10)
+        if k < 3:
+            body = 'POWER %s dBm' % self.int_tok(rng, True)
+        elif k < 6:
+            body = 'FREQ %s MHZ' % self.float_tok(rng, True)
+        elif k < 8:
+            body = rng.choice(['POWER?', 'FREQ?', 'SYST:ERR?'])
+        else:
+            body = ';'.join(rng.choice(['POWER?', 'FREQ?', 'SYST:ERR?', 'POWER 3 dBm', 'FREQ 1.25 MHZ', '', 'dummy',
+                                        ' FREQ?  x'])
+                            for _ in range(rng.randrange(2, 5)))
+        return body + '\n'
+
+    def refused_line(self, rng):
+        k = rng.randrange(6)
+        if k == 0:
+            return 'POWER %s dBm\n' % self.int_tok(rng, False)
+        if k == 1:
+            return 'FREQ %s MHZ\n' % self.float_tok(rng, False)
+        if k == 2:
+            return rng.choice(['POWER 5\n', 'POWER 5 dbm\n', 'POWER 5 dBm x\n', 'FREQ 5\n', 'FREQ 5 MHz\n',
+                               'FREQ 5 MHZ MHZ\n', 'POWER dBm 5\n', 'POWER5 dBm\n'])
+        if k == 3:
+            return rng.choice(['dummy\n', 'power?\n', 'FREQ ?\n', 'SYST:ERR\n', ';;\n', '\n', 'POWER?x\n'])
+        if k == 4:
+            return 'FREQ %s MHZ;FREQ?\n' % self.float_tok(rng, False)
+        return 'POWER %s dBm;POWER?;FREQ?\n' % self.int_tok(rng, False)
+
+    def c05_seeds(self):
+        return [('', 'freq', t, 'POWER 3 dBm\nFREQ?\n') for t in ('1.5', '0.1', '2.675', '1e300', '100')] + \
+               [('', 'power', t, 'FREQ 3 MHZ\nPOWER?\n') for t in ('5', '-7', '+3', '007')]
+
+    def c05_refused_seeds(self):
+        return [('FREQ 20 MHZ\n', 'FREQ %s MHZ\n' % t) for t in ('nan', 'inf', '-inf', '1e305', 'dummy')] + \
+               [('POWER 20 dBm\n', 'POWER %s dBm\n' % t) for t in ('1.5', 'x', '')]
+
+    def c02_histories(self):
+        return ['', 'FREQ nan MHZ\n', 'FREQ inf MHZ\n', 'FREQ 1e305 MHZ\n', 'FREQ -inf MHZ\n', 'POWER x dBm\n', 'FRE']
+
+    def c04_streams(self):
+        return ['POWER -5 dBm;POWER?;FREQ 1e300 MHZ;FREQ?;SYST:ERR?\n']
+
+
+register(GenLO())
